@@ -462,6 +462,24 @@ type C21Gen struct {
 	CycleAt       uint32
 	CyclePOWSent  bool
 	CycleDPOSSent bool
+	// evidence-script hooks
+	Script c21Script
+	// NoSpontaneousPOW: no random RevertToPOW(NoBlock) while arbiters exist
+	NoSpontaneousPOW bool
+}
+
+// Script hooks of the "evidence" histories (see c21Hist.runEvidenceScript):
+//
+//	Starve        node key that is never chosen as confirm sponsor (the arbiter
+//	              is treated as offline: view changes skip it) - makes it Inactive
+//	Hands         owners the random tables must not touch
+//	ForceCancel   owner (index+1) that sends CancelProducer in the next DPOS block
+//	ForceRegister owner (index+1) that registers (v1) in the next block
+type c21Script struct {
+	Starve        []byte
+	Hands         map[int]bool
+	ForceCancel   int
+	ForceRegister int
 }
 
 func (g *C21Gen) cycling(h uint32) bool { return g.CycleAt != 0 && h >= g.CycleAt }
@@ -515,6 +533,9 @@ func (g *C21Gen) NextBlock(v *state.Arbiters, m0 *C21Model, h uint32) (*C21Block
 		g.inc("tx_" + op)
 	}
 	txs = append(txs, w.TxCoinbase(h))
+	for i := range g.Script.Hands {
+		touchedOwner[i] = true
+	}
 
 	// -- mandatory transactions ------------------------------------------------
 	if h >= s.RecordSponsor && m.PrevSponsor != nil {
@@ -565,7 +586,7 @@ func (g *C21Gen) NextBlock(v *state.Arbiters, m0 *C21Model, h uint32) (*C21Block
 		case g.cycling(h) && !g.CyclePOWSent && len(normalArbiters) > 0:
 			g.CyclePOWSent = true
 			noBlock()
-		case h >= s.NewCR && (len(normalArbiters) == 0 || (r.Intn(40) == 0 && !g.cycling(h))):
+		case h >= s.NewCR && (len(normalArbiters) == 0 || (r.Intn(40) == 0 && !g.cycling(h) && !g.NoSpontaneousPOW)):
 			noBlock()
 		}
 	}
@@ -1403,6 +1424,28 @@ func (g *C21Gen) NextBlock(v *state.Arbiters, m0 *C21Model, h uint32) (*C21Block
 	if h < s.PublicDPOS+6 {
 		table = append(table, wk{"vote_v1", 30})
 	}
+	if fc := g.Script.ForceCancel; fc != 0 && !pow {
+		if p := v.GetProducerByOwnerPublicKey(w.OwnerKey(fc - 1)); p != nil && p.Identity() == state.DPoSV1 &&
+			(p.State() == state.Inactive || p.State() == state.Active || p.State() == state.Pending) {
+			add(w.TxCancelProducer(fc-1), "cancel_from_"+p.State().String())
+			g.Script.ForceCancel = 0
+		}
+	}
+	if fr := g.Script.ForceRegister; fr != 0 && h-1 <= v2Active {
+		o := fr - 1
+		nodeKey := w.NodeKey(o, 0)
+		if v.GetProducerByOwnerPublicKey(w.OwnerKey(o)) == nil && nodeKeyFree(nodeKey) {
+			if in, ok := m.takePlain(r, c21KOwner+o); ok {
+				dep := common.Fixed64(crstate.MinDepositAmount)
+				tx := w.TxRegisterProducer(o, nodeKey, newNick(), 0, dep, in.Op)
+				outs := w.record(tx)
+				m.Deposits[o] = append(m.Deposits[o], c21UTXO{Op: outs[0], Val: dep, Key: c21KOwner + o})
+				usedNode[hex.EncodeToString(nodeKey)] = true
+				add(tx, "register_v1")
+				g.Script.ForceRegister = 0
+			}
+		}
+	}
 	total := 0
 	for _, t := range table {
 		total += t.w
@@ -1435,8 +1478,11 @@ func (g *C21Gen) NextBlock(v *state.Arbiters, m0 *C21Model, h uint32) (*C21Block
 		var sponsor []byte
 		for k := 0; k < n; k++ {
 			a := arbiters[(duty+off+k)%n]
-			if a.IsNormal {
+			if a.IsNormal && !(g.Script.Starve != nil && bytes.Equal(a.NodePublicKey, g.Script.Starve)) {
 				sponsor = a.NodePublicKey
+				if k != 0 {
+					off += k // the view moved on past the silent arbiter(s)
+				}
 				break
 			}
 		}
